@@ -235,6 +235,20 @@ func (v *Verifier) VerifyStructural(name string, propNames []string) *FuncResult
 						if !isHumanerGlobal(args[5]) {
 							bad = append(bad, fn.String()+" ("+v.posStr(in.Pos())+"): humaner is not counts.Metric / counts.Binary")
 						}
+						// bytes are scaled by powers of 1024, counts by powers of
+						// 1000 (C12): unit "B" goes with counts.Binary and the
+						// empty unit with counts.Metric; there is no other unit
+						humanerName := ""
+						if u, ok := args[5].(*ssa.UnOp); ok {
+							if g, ok := u.X.(*ssa.Global); ok {
+								humanerName = g.Name()
+							}
+						}
+						if uk, ok := args[6].(*ssa.Const); !ok || uk.Value == nil {
+							bad = append(bad, fn.String()+" ("+v.posStr(in.Pos())+"): unit is not a constant")
+						} else if us := uk.Value.ExactString(); !(us == `"B"` && humanerName == "Binary") && !(us == `""` && humanerName == "Metric") {
+							bad = append(bad, fn.String()+" ("+v.posStr(in.Pos())+"): unit "+us+" is paired with counts."+humanerName+" (bytes take binary prefixes, counts take metric ones)")
+						}
 						// the object cited beside a metric is that metric's own
 						// witness: HistorySize field X is cited with field
 						// X{Blob,Tree,Commit,Tag} (C08), or with nothing
@@ -315,7 +329,7 @@ func (v *Verifier) VerifyStructural(name string, propNames []string) *FuncResult
 			}
 		}
 		sort.Strings(bad)
-		mk(len(bad) == 0 && n > 0 && okTop, fmt.Sprintf("all %d newItem call sites pass a positive finite constant reference value and counts.Metric/Binary (written only by counts.init); contents() returns an unnamed top-level section: %v; offending: %v", n, okTop, bad))
+		mk(len(bad) == 0 && n > 0 && okTop, fmt.Sprintf("all %d newItem call sites pass a positive finite constant reference value and counts.Metric with the empty unit or counts.Binary with unit B (humaners written only by counts.init); contents() returns an unnamed top-level section: %v; offending: %v", n, okTop, bad))
 	case "atomic-consistency":
 		// A memory cell that is accessed through sync/atomic anywhere is
 		// accessed through sync/atomic everywhere (outside constructors'
